@@ -233,6 +233,28 @@ enum Case {
     /// one full scan of a collection keyed by strings (any order, duplicates
     /// dropped: the server holds them in a BTreeSet)
     Names { order: String, names: Vec<String>, limit: Option<u64> },
+    /// the same with generated names: prefix + rank in decimal, zero-padded
+    NamesPad { order: String, pad: Pad, limit: Option<u64> },
+    /// a scan too long to write out page by page: integer keys (`keys`) or
+    /// generated names (`pad`); the observation is summarised (see `summary`)
+    Sum { order: String, keys: Option<Keys>, pad: Option<Pad>, limit: Option<u64> },
+}
+
+/// `n` names: prefix + rank written with `width` decimal digits
+#[derive(Serialize, Deserialize, Clone, Debug)]
+struct Pad {
+    prefix: String,
+    width: usize,
+    n: u64,
+}
+impl Pad {
+    fn names(&self) -> Vec<String> {
+        assert!(self.width <= 20 && (self.n as u128) <= 10u128.pow(self.width as u32));
+        (0..self.n).map(|i| format!("{}{:0w$}", self.prefix, i, w = self.width)).collect()
+    }
+    fn coq(&self) -> String {
+        format!("(NPad {} {} {})", g_str(&self.prefix), self.width, self.n)
+    }
 }
 
 #[derive(Deserialize)]
@@ -339,6 +361,56 @@ fn j_obs(o: &ScanObs) -> Value {
         ScanObs::Runaway(p) => json!({"runaway": true, "pages": p.len(), "page_sizes": sizes(p)}),
     }
 }
+/// Summary of a long scan, as the judge's `scan_sum`: run-length encoding of
+/// (page size, token present); number of items; 64-bit rolling hash of the item
+/// sequence (h = (h * 33) ^ key, from 5381); token bytes of the first two and
+/// the last two pages that carry one.
+fn summary(o: &ScanObs) -> (String, Value) {
+    match o {
+        ScanObs::Failed(c, p) => (format!("(MFailed {} {})", c, p.len()), json!({"failed": c, "pages": p.len()})),
+        ScanObs::Runaway(p) => (format!("(MRunaway {})", p.len()), json!({"runaway": true, "pages": p.len()})),
+        ScanObs::Done(p) => {
+            let mut runs: Vec<(usize, bool, u64)> = vec![];
+            let mut h: u64 = 5381;
+            let mut nitems = 0u64;
+            for pg in p {
+                let key = (pg.items.len(), pg.token.is_some());
+                match runs.last_mut() {
+                    Some(r) if (r.0, r.1) == key => r.2 += 1,
+                    _ => runs.push((key.0, key.1, 1)),
+                }
+                for k in &pg.items {
+                    h = h.wrapping_mul(33) ^ *k;
+                    nitems += 1;
+                }
+            }
+            let with_tok: Vec<usize> = p.iter().enumerate().filter(|(_, x)| x.token.is_some()).map(|(i, _)| i).collect();
+            let mut idx: Vec<usize> = with_tok.iter().take(2).cloned().collect();
+            idx.extend(with_tok.iter().rev().take(2).cloned());
+            idx.sort();
+            idx.dedup();
+            let toks = g_list(&idx, |i| format!("({}, {})", i, g_str(p[*i].token.as_ref().unwrap())));
+            let coq = format!(
+                "(MDone {} {} {} {})",
+                g_list(&runs, |r| format!("({}, {}, {})", r.0, g_bool(r.1), r.2)),
+                nitems,
+                h,
+                toks
+            );
+            (coq, json!({"done": true, "pages": p.len(), "items": nitems, "runs": runs.iter().take(20).collect::<Vec<_>>(), "item_hash": h}))
+        }
+    }
+}
+
+fn large_tags(kind: &str, n: usize, pages: usize, limit: &Option<u64>) -> Vec<String> {
+    vec![
+        format!("large:keys:{}", kind),
+        format!("large:n:{}", n),
+        format!("large:pages:{}", pages),
+        format!("large:limit:{}", match limit { None => "absent".to_string(), Some(l) => l.to_string() }),
+    ]
+}
+
 fn g_order(o: &str) -> &'static str {
     match o {
         "ascending" => "Asc",
@@ -386,14 +458,14 @@ fn exec(case: &Case, srv: &mut Option<Server>) -> Line {
                 g_opt(limit, |l| l.to_string()),
                 g_obs(&o)
             );
-            Line {
-                group: "scan",
-                case: cj,
-                obs: j_obs(&o),
-                coq,
-                tags: vec![format!("scan:{}:size{}:limit{}", order, size_band(keys.len()), lim_band(limit))],
-                nontrivial: true,
+            let mut tags = vec![format!("scan:{}:size{}:limit{}", order, size_band(keys.len()), lim_band(limit))];
+            if (255..=257).contains(&keys.len()) {
+                let pages = match &o {
+                    ScanObs::Done(p) | ScanObs::Failed(_, p) | ScanObs::Runaway(p) => p.len(),
+                };
+                tags.extend(large_tags("int", keys.len(), pages, limit));
             }
+            Line { group: "scan", case: cj, obs: j_obs(&o), coq, tags, nontrivial: true }
         }
         Case::Names { order, names, limit } => {
             // the collection as the server holds it: sorted in String order, distinct
@@ -409,7 +481,7 @@ fn exec(case: &Case, srv: &mut Option<Server>) -> Line {
             let coq = format!(
                 "(CScanNames {} {} {} {})",
                 g_order(order),
-                g_list(&sorted, |x| g_str(x)),
+                format!("(NList {})", g_list(&sorted, |x| g_str(x))),
                 g_opt(limit, |l| l.to_string()),
                 g_obs(&o)
             );
@@ -435,6 +507,46 @@ fn exec(case: &Case, srv: &mut Option<Server>) -> Line {
                 tags.push("names:token-with-dash-or-underscore".to_string());
             }
             Line { group: "names", case: cj, obs: j_obs(&o), coq, tags, nontrivial: true }
+        }
+        Case::NamesPad { order, pad, limit } => {
+            let sorted = pad.names();
+            *s.ctx.names.write().unwrap() = sorted.iter().cloned().collect();
+            let n = sorted.len();
+            let rank = |v: &Value| -> Option<u64> {
+                v.as_str().map(|nm| sorted.binary_search_by(|x| x.as_str().cmp(nm)).map(|i| i as u64).unwrap_or(n as u64))
+            };
+            let o = scan_at(s, "/names", order, n, *limit, &rank);
+            let coq = format!("(CScanNames {} {} {} {})", g_order(order), pad.coq(), g_opt(limit, |l| l.to_string()), g_obs(&o));
+            let pages = match &o {
+                ScanObs::Done(p) | ScanObs::Failed(_, p) | ScanObs::Runaway(p) => p.len(),
+            };
+            Line { group: "large", case: cj, obs: j_obs(&o), coq, tags: large_tags("string", n, pages, limit), nontrivial: true }
+        }
+        Case::Sum { order, keys, pad, limit } => {
+            let (o, src, kind, n) = match (keys, pad) {
+                (Some(k), None) => {
+                    set_coll(s, k);
+                    (scan(s, order, k.len(), *limit), format!("(KInts {})", k.coq()), "int", k.len())
+                }
+                (None, Some(pd)) => {
+                    let sorted = pd.names();
+                    *s.ctx.names.write().unwrap() = sorted.iter().cloned().collect();
+                    let n = sorted.len();
+                    let rank = |v: &Value| -> Option<u64> {
+                        v.as_str().map(|nm| sorted.binary_search_by(|x| x.as_str().cmp(nm)).map(|i| i as u64).unwrap_or(n as u64))
+                    };
+                    (scan_at(s, "/names", order, n, *limit, &rank), format!("(KNames {})", pd.coq()), "string", n)
+                }
+                _ => panic!("Sum: exactly one of keys / pad"),
+            };
+            let (sum_coq, sum_j) = summary(&o);
+            let coq = format!("(CScanSum {} {} {} {})", g_order(order), src, g_opt(limit, |l| l.to_string()), sum_coq);
+            let pages = match &o {
+                ScanObs::Done(p) | ScanObs::Failed(_, p) | ScanObs::Runaway(p) => p.len(),
+            };
+            let mut tags = large_tags(kind, n, pages, limit);
+            tags.push("large:summarised".to_string());
+            Line { group: "large", case: cj, obs: sum_j, coq, tags, nontrivial: true }
         }
         Case::Grid { order, keys, limits } => {
             set_coll(s, keys);
@@ -648,6 +760,77 @@ fn gen_names(rng: &mut Rng, thorough: bool, cases: &mut Vec<Case>) {
     }
 }
 
+/// Large-scope slice (deterministic): every size-like dimension of a scan
+/// pushed across the usual round numbers — collection sizes 255/256/257,
+/// 9999/10000/10001 (thorough: 20001, 65535/65536/65537); client limit absent,
+/// 1, 255/256/257, the maximum, above it (u32::MAX); number of pages of one
+/// scan beyond 256, 1024, 2048 (thorough: 65538 = limit 1 over 65537 items);
+/// both orders; integer and string keys.  page_max_nitems / page_default_nitems
+/// cannot be configured (constants in server.rs), so only 10000 / 100 are run.
+fn gen_large(thorough: bool, cases: &mut Vec<Case>) {
+    let orders = ["ascending", "descending"];
+    let umax = Some(4294967295u64);
+    let mut flip = 0usize;
+    let mut next_order = |both: bool| -> Vec<String> {
+        if both {
+            orders.iter().map(|o| o.to_string()).collect()
+        } else {
+            flip += 1;
+            vec![orders[flip % 2].to_string()]
+        }
+    };
+    // page by page (ordinary judgement): 255 / 256 / 257 items
+    for n in [255u64, 256, 257] {
+        for l in [None, Some(1), Some(255), Some(256), Some(257), Some(10000), umax] {
+            let both = matches!(l, None | Some(1)) || l == umax;
+            for o in next_order(both) {
+                let start = if n == 256 { u64::MAX - 2 * 255 } else { n };
+                cases.push(Case::Scan { order: o, keys: Keys::Arith { start, step: 2, n }, limit: l });
+            }
+        }
+        for l in [None, Some(1), Some(256), umax] {
+            for o in next_order(false) {
+                cases.push(Case::NamesPad { order: o, pad: Pad { prefix: "n>\u{ff}".into(), width: 3, n }, limit: l });
+            }
+        }
+    }
+    // summarised: around the maximum page size
+    for n in [9999u64, 10000, 10001] {
+        for l in [None, Some(10000), umax] {
+            for o in next_order(false) {
+                cases.push(Case::Sum { order: o, keys: Some(Keys::Arith { start: 1, step: 1, n }), pad: None, limit: l });
+            }
+        }
+    }
+    for l in [None, Some(10000), umax] {
+        for o in next_order(false) {
+            cases.push(Case::Sum { order: o, keys: None, pad: Some(Pad { prefix: "k?".into(), width: 5, n: 10001 }), limit: l });
+        }
+    }
+    // many pages in one scan
+    cases.push(Case::Sum { order: "ascending".into(), keys: Some(Keys::Arith { start: 7, step: 3, n: 2049 }), pad: None, limit: Some(1) });
+    cases.push(Case::Sum { order: "descending".into(), keys: None, pad: Some(Pad { prefix: "p~".into(), width: 4, n: 1025 }), limit: Some(1) });
+    if thorough {
+        for n in [20001u64, 65535, 65536, 65537] {
+            for l in [None, Some(10000), umax] {
+                for o in next_order(true) {
+                    cases.push(Case::Sum { order: o, keys: Some(Keys::Arith { start: 0, step: 1, n }), pad: None, limit: l });
+                }
+            }
+        }
+        for l in [None, umax] {
+            for o in next_order(true) {
+                cases.push(Case::Sum { order: o, keys: None, pad: Some(Pad { prefix: "k?".into(), width: 5, n: 65537 }), limit: l });
+            }
+        }
+        // 65538 requests in one scan
+        for o in orders.iter() {
+            cases.push(Case::Sum { order: o.to_string(), keys: Some(Keys::Arith { start: 5, step: 3, n: 65537 }), pad: None, limit: Some(1) });
+            cases.push(Case::Sum { order: o.to_string(), keys: None, pad: Some(Pad { prefix: "n>\u{ff}".into(), width: 6, n: 65537 }), limit: Some(1) });
+        }
+    }
+}
+
 fn generate(opts: &Opts) -> Vec<Case> {
     let mut rng = Rng::new(opts.seed);
     let mut cases = vec![];
@@ -735,6 +918,7 @@ fn generate(opts: &Opts) -> Vec<Case> {
         cases.push(Case::Scan { order: o.to_string(), keys: keys(&mut rng, n, st), limit: l });
     }
     gen_names(&mut rng, opts.thorough, &mut cases);
+    gen_large(opts.thorough, &mut cases);
     // the driver cuts the output into consecutive shards: mix cheap and costly cases
     rng.shuffle(&mut cases);
     cases
